@@ -34,6 +34,12 @@ CFG = PropCfg(
                                               for o in f["impl"]),
               nontrivial=lambda ops, outs: any(o.startswith(("reap", "ccreate")) for o in ops),
               classify=lambda op, out: op.split(" ", 1)[0] + "->" + out.split(" ")[0][:6]),
+     # two real muxers over a lossy network, every reliable tube shadowed by a silent unreliable tube with the
+     # same id (C08's harness and monitor)
+     SuiteCfg("C09sys", kind="monitor", binary="C08", parts_thorough=4, timeout=1500,
+              signature=lambda seg, impl, ver, k: {"line": (seg[k] if k < len(seg) else "").split(" ")[0],
+                                                   "verdict": (ver[k] if k < len(ver) else "<missing>").split("-")[0]},
+              nontrivial=lambda seg, ver: any(l.startswith("eof") for l in seg)),
      SuiteCfg("C09late", kind="monitor", signature=_sig_late, parts_thorough=1,
               nontrivial=lambda seg, ver: any(l.startswith("late ") for l in seg))],
     rule="suite C09: a case is one history on a real tubes.Muxer over a scripted MsgConn (child processes): remote "
@@ -45,7 +51,11 @@ CFG = PropCfg(
          "identifier released after less than one RTT is reported `early`; if more than 2 RTT pass before the "
          "dependent operations ran - a very slow machine - the rest of the case is not compared); concurrent Create* bursts of 1..129 calls after the peer took "
          "some ids; every answer (Accept results, ids, bytes/messages read, EOF, tube presence) is compared with "
-         "the Lean model. suite C09late (monitor): histories containing datagrams of a reaped incarnation; the "
+         "the Lean model. suite C09sys (monitor, C08's harness): two real muxers over an in-memory network with 10-20% loss and "
+         "an outage of 0.5-0.9 s (so that timeout retransmissions and their acknowledgements occur), 1-3 reliable tubes "
+         "with unequal traffic in the two directions, each shadowed by an unreliable tube with the same identifier on "
+         "which nobody writes: a message read from a shadow tube was written on another tube; the reliable streams "
+         "must stay prefixes and complete. suite C09late (monitor): histories containing datagrams of a reaped incarnation; the "
          "Lean monitor checks the Spec 'late datagrams are unobservable' (C09_full) by running the model without "
          "them. distinct_nontrivial counts distinct histories with a reap or a concurrent creation (C09) / with a "
          "late datagram (C09late).",
